@@ -652,6 +652,15 @@ func freshRoot(v ssa.Value) (fresh bool, why string) {
 // passesThrough reports whether the address chain of v goes through field
 // `field` of a value of named type (pkg,name) — e.g. &p.Data[i] — or is a
 // field of such a value.
+// isSeqType: the field is storage of the object itself (inline array) or a view shared with it (slice).
+func isSeqType(t types.Type) bool {
+	switch t.Underlying().(type) {
+	case *types.Slice, *types.Array:
+		return true
+	}
+	return false
+}
+
 func throughType(v ssa.Value, pkgPath string, names ...string) (hit bool, viaData bool, typ string) {
 	for i := 0; i < 64 && v != nil; i++ {
 		switch x := v.(type) {
@@ -659,7 +668,7 @@ func throughType(v ssa.Value, pkgPath string, names ...string) (hit bool, viaDat
 			for _, n := range names {
 				if typeIs(x.X.Type(), pkgPath, n) {
 					st := derefStruct(x.X.Type())
-					return true, st.Field(x.Field).Name() == "Data", n + "." + st.Field(x.Field).Name()
+					return true, isSeqType(st.Field(x.Field).Type()), n + "." + st.Field(x.Field).Name()
 				}
 			}
 			v = x.X
@@ -667,7 +676,7 @@ func throughType(v ssa.Value, pkgPath string, names ...string) (hit bool, viaDat
 			for _, n := range names {
 				if typeIs(x.X.Type(), pkgPath, n) {
 					st, _ := x.X.Type().Underlying().(*types.Struct)
-					return true, st.Field(x.Field).Name() == "Data", n + "." + st.Field(x.Field).Name()
+					return true, isSeqType(st.Field(x.Field).Type()), n + "." + st.Field(x.Field).Name()
 				}
 			}
 			v = x.X
